@@ -91,6 +91,11 @@ CLAIMED = {
          "Every chain of <=3 (quick) / <=4 (thorough) calls on z.String() from 10 tests (incl. four Not() forms and TestFunc) x option {none, Message, IssueCode, IssuePath, Params} and 7 modifier calls (Required, Required(Message), Optional, Default x2, Catch x2) is built and run on 7 subjects in Parse and Validate: a negated test fails exactly when the plain test passes, reports the not_ code, and the following test is plain; last call wins for modifiers; an option changes only its own test's code / path / message / params (issues are matched to tests by position). Int chains likewise. One schema object used at two places (two fields, field + slice element, field + behind pointer) must equal two independent copies on all input pairs; WithCoercer affects only its own schema, and through Ptr the pointed-to schema.",
          "Not() is followed only by methods of the interface it returns. Messages compared only where a Message option was given.",
          "DESIGN.md section 4 C17"),
+
+ "C08": ("stateless model checking of the real code under a cooperative scheduler: every interleaving of 2-3 threads on shared schemas at pool operations (thorough: at every library statement) within a preemption bound, x pool answers; per-call result equals the sequential result; pool-ownership and schema-immutability monitors; separate free-running -race pass",
+         "Eight closed drivers share schema objects between threads (two-test string schema; struct with fail -> CollectMap -> parse again vs fail twice; slice Default + element Catch validated from nil with a mutating PostTransform; per-thread WithCtxValue read by a recording test; Ptr(Struct) Validate; catching field next to a required slice; i18n with a language per thread; Time/Bool/Float with defaults and OneOf lists). The overlay turns every sync.Pool Get/Put (and, in the fine mode, every statement of the library) into a scheduling point; the explorer enumerates which thread starts, every preemption within the budget, which thread continues when one ends, and which free object each Get returns. In every schedule each thread's complete observations must equal that thread run alone on cleared pools with a fresh schema; no pooled object may be handed out while held or be in a free list twice; values handed to builders must be unchanged. The same bodies are also run free on 8 goroutines under the Go race detector against the un-instrumented sources (a report is a violation; silence is sampling evidence only).",
+         "Quick: 2 threads, coarse points, <=2 deviations (preemptions + non-LIFO pool answers). Thorough: coarse <=3; fine points <=1 preemption; 3 threads coarse <=2. The 'no data race' half at memory-model level is monitored, not enumerated.",
+         "DESIGN.md section 4 C08"),
 }
 NOT_YET = "check not built yet in this round (work in progress; see DESIGN.md section 4)"
 def main():
